@@ -33,6 +33,7 @@ CONSTANTS
     Trees,              \* sequence of fork-tree records (see MCChain.tla)
     MaxBatch,           \* maximal length of a submitted batch
     Subs,               \* subscriber ids
+    Lis,                \* ids of listeners that register / unregister OnReorg ("r..") or OnPoolChange ("p..") callbacks
     Chunks,             \* chunk sizes a subscriber may ask for
     EnableFlush,        \* family `durable`: MidFlush and Crash enabled
     EnablePrune,        \* family `prune`: Prune enabled
@@ -53,12 +54,13 @@ VARIABLES
     led,    \* element buckets: [utxo, fc, exp]
     dur,    \* committed image [blk, sta, best, led]
     subs,   \* subscriber -> block id (0 = nothing yet)
-    notif,  \* number of OnReorg notifications fired
+    notif,  \* number of OnReorg notifications fired (the permanent listener every node has)
+    lis,    \* dynamic listeners: -1 = not registered, n >= 0 = notifications received since registering
     seen,   \* history: every value mem has taken
     act     \* label of the last action (hidden by VIEW)
 
-vars == <<t, blk, sta, best, mem, pc, ret, led, dur, subs, notif, seen, act>>
-view == <<t, blk, sta, best, mem, pc, ret, led, dur, subs>>
+vars == <<t, blk, sta, best, mem, pc, ret, led, dur, subs, notif, lis, seen, act>>
+view == <<t, blk, sta, best, mem, pc, ret, led, dur, subs, [l \in Lis |-> lis[l] >= 0]>>
 
 -----------------------------------------------------------------------------
 T        == Trees[t]
@@ -182,6 +184,7 @@ Init ==
     /\ dur = [blk |-> blk, sta |-> sta, best |-> best, led |-> led]
     /\ subs = [s \in Subs |-> 0]
     /\ notif = 0
+    /\ lis = [l \in Lis |-> -1]
     /\ seen = {1}
     /\ act = [op |-> "Init"]
 
@@ -215,7 +218,7 @@ Submit(batch) ==
             THEN /\ pc' = [k |-> "reorg", rev |-> RevertList(mem, r.cs), app |-> ApplyList(mem, r.cs), old |-> mem, rb |-> FALSE, stepped |-> FALSE]
                  /\ ret' = "pending"
             ELSE ret' = "ok" /\ pc' = Idle
-    /\ UNCHANGED <<t, best, mem, led, dur, subs, notif, seen>>
+    /\ UNCHANGED <<t, best, mem, led, dur, subs, notif, lis, seen>>
 
 \* ---- AddValidatedV2Blocks (313-359): the caller (the syncer's instant sync) has validated the
 \* blocks; they are stored with an EMPTY v1 supplement and the caller's states, then the weight gate
@@ -249,7 +252,7 @@ SubmitValidated(batch) ==
                    THEN /\ pc' = [k |-> "reorg", rev |-> RevertList(mem, last), app |-> ApplyList(mem, last), old |-> mem, rb |-> FALSE, stepped |-> FALSE]
                         /\ ret' = "pending"
                    ELSE ret' = "ok" /\ pc' = Idle
-    /\ UNCHANGED <<t, best, mem, led, dur, subs, notif, seen>>
+    /\ UNCHANGED <<t, best, mem, led, dur, subs, notif, lis, seen>>
 
 \* ---- revertTip
 CanRevert == blk[mem] \in {"body", "supp"} /\ sta[Par(mem)] # "none"
@@ -262,7 +265,7 @@ RevertStep ==
     /\ led' = IF H(Par(mem)) <= ReqH THEN RevertEff(led, mem) ELSE led
     /\ pc' = [pc EXCEPT !.rev = Tail(@), !.stepped = TRUE]
     /\ seen' = seen \cup {Par(mem)}
-    /\ UNCHANGED <<t, blk, sta, ret, dur, subs, notif>>
+    /\ UNCHANGED <<t, blk, sta, ret, dur, subs, notif, lis>>
 
 \* ---- applyTip
 \* b is an ID (class representative); the body validated is the one stored for it
@@ -280,7 +283,7 @@ ApplyStep ==
        /\ led' = IF H(b) <= ReqH THEN ApplyEff(led, b) ELSE led
        /\ pc' = [pc EXCEPT !.app = Tail(@), !.stepped = TRUE]
        /\ seen' = seen \cup {b}
-    /\ UNCHANGED <<t, ret, dur, subs, notif>>
+    /\ UNCHANGED <<t, ret, dur, subs, notif, lis>>
 
 \* ---- a step of the reorg fails: missing/pruned block on revert, missing or invalid block on
 \* apply.  First failure: reorgTo(oldTip) is started from the CURRENT tip.  A failure while
@@ -296,7 +299,7 @@ FailReorg ==
          THEN pc' = Idle /\ ret' = "rollbackfailed"
          ELSE /\ pc' = [k |-> "reorg", rev |-> RevertList(mem, pc.old), app |-> ApplyList(mem, pc.old), old |-> pc.old, rb |-> TRUE, stepped |-> FALSE]
               /\ ret' = "pending"
-    /\ UNCHANGED <<t, blk, sta, best, mem, led, dur, subs, notif, seen>>
+    /\ UNCHANGED <<t, blk, sta, best, mem, led, dur, subs, notif, lis, seen>>
 
 \* nil supplement dereference in revertTip (blk = "body" on the best chain): the process dies
 \* part-way through the reorg.  Reachable only with DevResubmitPruned.
@@ -304,7 +307,7 @@ PanicStep ==
     /\ pc.k = "reorg" /\ pc.rev # <<>> /\ CanRevert /\ blk[mem] = "body"
     /\ act' = [op |-> "Panic"]
     /\ ret' = "panic" /\ pc' = Idle
-    /\ UNCHANGED <<t, blk, sta, best, mem, led, dur, subs, notif, seen>>
+    /\ UNCHANGED <<t, blk, sta, best, mem, led, dur, subs, notif, lis, seen>>
 
 \* ---- end of reorgTo: store.Flush(); on success the listeners are notified
 FinishReorg ==
@@ -313,6 +316,8 @@ FinishReorg ==
     /\ dur' = Image
     /\ ret' = IF pc.rb THEN "reorgfailed" ELSE "ok"
     /\ notif' = IF pc.rb THEN notif ELSE notif + 1
+    \* every callback registered at this moment is called once (OnReorg and OnPoolChange alike)
+    /\ lis' = IF pc.rb THEN lis ELSE [l \in Lis |-> IF lis[l] >= 0 THEN lis[l] + 1 ELSE -1]
     /\ pc' = Idle
     /\ UNCHANGED <<t, blk, sta, best, mem, led, subs, seen>>
 
@@ -322,7 +327,7 @@ MidFlush ==
     /\ pc.k = "reorg" /\ pc.stepped       \* right after an individual apply or revert
     /\ act' = [op |-> "MidFlush"]
     /\ dur' = Image                          \* idempotent: a second commit changes nothing
-    /\ UNCHANGED <<t, blk, sta, best, mem, pc, ret, led, subs, notif, seen>>
+    /\ UNCHANGED <<t, blk, sta, best, mem, pc, ret, led, subs, notif, lis, seen>>
 
 \* the process stops at any moment; NewDBStore + NewManager on the committed image
 Crash ==
@@ -332,6 +337,7 @@ Crash ==
     /\ mem' = dur.best[Len(dur.best)]
     /\ pc' = Idle /\ ret' = "ok"
     /\ subs' = [s \in Subs |-> 0]
+    /\ lis' = [l \in Lis |-> -1]          \* callbacks live in the process
     /\ UNCHANGED <<t, dur, notif, seen>>
 
 \* ---- C19: PruneBlocks(h): walk down from h-1 on the best chain while a body exists
@@ -346,7 +352,7 @@ Prune(h) ==
     /\ act' = [op |-> "Prune", h |-> h]
     /\ blk' = IF h - 1 + 1 > Len(best) THEN blk ELSE PruneFrom(blk, h - 1)
     /\ ret' = "ok"
-    /\ UNCHANGED <<t, sta, best, mem, pc, led, dur, subs, notif, seen>>
+    /\ UNCHANGED <<t, sta, best, mem, pc, led, dur, subs, notif, lis, seen>>
 
 \* MinReorgIndex: walk back from the tip while the block below has a body
 RECURSIVE MinReorgFrom(_)
@@ -374,7 +380,7 @@ Poll(s, max) ==
        /\ act' = [op |-> "Poll", s |-> s, max |-> max, rus |-> r.rus, aus |-> r.aus, err |-> r.err]
        /\ subs' = IF r.err = "ok" THEN [subs EXCEPT ![s] = r.idx] ELSE subs
        /\ ret' = r.err
-    /\ UNCHANGED <<t, blk, sta, best, mem, pc, led, dur, notif, seen>>
+    /\ UNCHANGED <<t, blk, sta, best, mem, pc, led, dur, notif, lis, seen>>
 
 \* ---- read-only queries the syncer relies on (History 160-184, Headers 189-206,
 \* BlocksForHistory 213-241); pure functions of the state, compared exactly in trace validation
@@ -405,7 +411,20 @@ BlocksOf(hist, max) ==
          THEN [err |-> "missing", ids |-> <<>>, rem |-> 0]
          ELSE [err |-> "ok", ids |-> ids, rem |-> tipH - (a + n)]
 
+\* ---- OnReorg / OnPoolChange (manager.go 117-158): register a callback, get its cancel function
+Subscribe(l) ==
+    /\ pc.k = "idle" /\ lis[l] = -1
+    /\ act' = [op |-> "Sub", s |-> l]
+    /\ lis' = [lis EXCEPT ![l] = 0]
+    /\ UNCHANGED <<t, blk, sta, best, mem, pc, ret, led, dur, subs, notif, seen>>
+Unsubscribe(l) ==
+    /\ pc.k = "idle" /\ lis[l] >= 0
+    /\ act' = [op |-> "Unsub", s |-> l]
+    /\ lis' = [lis EXCEPT ![l] = -1]
+    /\ UNCHANGED <<t, blk, sta, best, mem, pc, ret, led, dur, subs, notif, seen>>
+
 Next ==
+    \/ \E l \in Lis : Subscribe(l) \/ Unsubscribe(l)
     \/ \E batch \in Batches : Submit(batch)
     \/ (EnableValidated /\ \E batch \in ValBatches : SubmitValidated(batch))
     \/ RevertStep \/ ApplyStep \/ FailReorg \/ PanicStep \/ FinishReorg
@@ -478,6 +497,14 @@ Contiguous ==
         /\ (Len(rus) + Len(aus) < act'.max => subs'[act'.s] = mem)]_vars
 NotifyOnlyIfMoved == [][notif' # notif /\ act'.op # "Init" => CallEnds /\ mem' # pc.old /\ notif' = notif + 1]_vars
 MovedImpliesNotify == [][CallEnds /\ mem' # pc.old /\ ret' = "ok" => notif' = notif + 1]_vars
+\* the same for every callback registered at the time, whatever registrations and cancellations
+\* happened before; a cancelled or not yet registered callback is never called
+ListenersNotified ==
+    [][CallEnds /\ mem' # pc.old /\ ret' = "ok" => \A l \in Lis : lis[l] >= 0 => lis'[l] = lis[l] + 1]_vars
+ListenersOnlyIfMoved ==
+    [][\A l \in Lis : (lis[l] >= 0 /\ lis'[l] >= 0 /\ lis'[l] # lis[l]) => (CallEnds /\ mem' # pc.old /\ lis'[l] = lis[l] + 1)]_vars
+CancelOnlyOwn ==
+    [][act'.op \in {"Sub", "Unsub"} => \A l \in Lis : l # act'.s => lis'[l] = lis[l]]_vars
 \* liveness (C04): a subscriber that keeps polling reaches the manager's tip again and again,
 \* whatever submissions and (failed) reorgs keep happening: the tip moves only finitely often (it only
 \* moves to something heavier) and every poll walks towards it.  Strong fairness on Poll because
